@@ -449,6 +449,94 @@ theorem commit_view {s : St} {root : Hash} {fuel : Nat} {ws : List Hash} (hi : I
     simp only [hc] at hn
     exact ⟨hext h n hn, fun r hr => Or.inr (hcl h n hn r hr)⟩
 
+/-- shape of every `commit` result: a prefix of the Put sequence reached the disk;
+    the cache is either untouched, or (all Puts written) `uncache`d. -/
+theorem commit_cases {s : St} {root : Hash} {failAt : Option Nat} {fuel : Nat} {out : CommitOut}
+    (hc : commit s root failAt fuel = some out) :
+    ∃ ws p, walk s.cache fuel root = some ws ∧ p <+: ws ∧
+      out.st.disk = applyWrites s.cache s.disk p ∧
+      (out.st.cache = s.cache ∨ (out.st.cache = uncache s.cache ws ∧ p = ws)) := by
+  unfold commit at hc
+  cases hw : walk s.cache fuel root with
+  | none => simp [hw] at hc
+  | some ws =>
+    simp only [hw] at hc
+    have hflat : (splitBatches s.cache ws [] 0).flatten = ws := by
+      rw [splitBatches_flatten]; simp
+    have succ : ∀ o : CommitOut, o = ⟨splitBatches s.cache ws [] 0, true,
+        ⟨uncache s.cache ws, applyBatches s.cache s.disk (splitBatches s.cache ws [] 0)⟩⟩ →
+        ∃ ws' p, some ws = some ws' ∧ p <+: ws' ∧ o.st.disk = applyWrites s.cache s.disk p ∧
+          (o.st.cache = s.cache ∨ (o.st.cache = uncache s.cache ws' ∧ p = ws')) := by
+      intro o ho
+      subst ho
+      exact ⟨ws, ws, rfl, List.prefix_refl ws, by simp only; rw [applyBatches_eq, hflat], Or.inr ⟨rfl, rfl⟩⟩
+    cases failAt with
+    | none => simp at hc; exact succ out hc.symm
+    | some k =>
+      simp only at hc
+      split at hc
+      · simp at hc; subst hc
+        refine ⟨ws, ((splitBatches s.cache ws [] 0).take k).flatten, rfl, ?_, ?_, Or.inl rfl⟩
+        · have := take_flatten_prefix (splitBatches s.cache ws [] 0) k
+          rwa [hflat] at this
+        · simp only; rw [applyBatches_eq]
+      · simp at hc; exact succ out hc.symm
+
+/-- "outside code doesn't see an inconsistent state": whatever `NodeDatabase.Node`
+    (cache, then disk) returned before a commit — successful or refused at any
+    write — it returns afterwards. -/
+theorem commit_live_stable {s : St} {root : Hash} {failAt : Option Nat} {fuel : Nat} {out : CommitOut}
+    (hi : Inv s) (hc : commit s root failAt fuel = some out) :
+    ∀ h n, liveLookup s h = some n → liveLookup out.st h = some n := by
+  obtain ⟨ws, p, hw, _, hd, hcache⟩ := commit_cases hc
+  have hext : Extends s.disk out.st.disk := by rw [hd]; exact (writes_extends p s.disk hi.consistent).1
+  intro h n hn
+  unfold liveLookup at hn ⊢
+  rcases hcache with hsame | ⟨hunc, hp⟩
+  · rw [hsame]
+    cases hl : s.cache.lookup h with
+    | some cn => simpa [hl] using hn
+    | none => simp only [hl] at hn ⊢; exact hext h n hn
+  · rw [hunc, uncache_lookup]
+    cases hl : s.cache.lookup h with
+    | some cn =>
+      simp only [hl, Option.some.injEq] at hn
+      subst hn
+      by_cases hin : h ∈ ws
+      · have : ws.contains h = true := by simpa using hin
+        simp only [this, if_true]
+        rw [hd, hp]
+        exact writes_lookup hl ws s.disk (Or.inl hin)
+      · have : ws.contains h = false := by simpa using hin
+        simp only [this, Bool.false_eq_true, if_false, hl]
+    | none =>
+      simp only [hl] at hn
+      have : (if ws.contains h = true then none else (none : Option CNode)) = none := by split <;> rfl
+      simp only [this]
+      exact hext h n hn
+
+/-- once the walk returns, more fuel returns the same sequence (the fuel only
+    separates terminating from non-terminating recursions). -/
+theorem walk_fuel_mono (c : Cache) : ∀ (f : Nat) (h : Hash) (ws : List Hash),
+    walk c f h = some ws → walk c (f + 1) h = some ws := by
+  intro f
+  induction f with
+  | zero => intro h ws hw; simp [walk_zero] at hw
+  | succ f ih =>
+    intro h ws hw
+    rw [walk_succ] at hw ⊢
+    cases hl : c.lookup h with
+    | none => simpa [hl] using hw
+    | some n =>
+      simp only [hl] at hw ⊢
+      cases ha : allSome (n.childs.map (walk c f)) with
+      | none => simp [ha] at hw
+      | some ts =>
+        simp only [ha] at hw
+        have := allSome_map_congr (walk c f) (walk c (f + 1)) n.childs ts ha (fun x _ t ht => ih x t ht)
+        simp only [this]
+        exact hw
+
 /-! ## the state machine -/
 
 theorem step_inv {eD eC : Hash} {s s' : St} {op : Op} (hi : Inv s) (hok : OpOk eD eC s op)
